@@ -278,7 +278,7 @@ func c18Scens(tier string) []e1Scen {
 	// retention: periodic words (window slides many times) and one very long word per variant x storage
 	longLen := 1200
 	if tier == "thorough" {
-		longLen = 12000
+		longLen = 3600 // (12000 writes took a worker more than 20 minutes per chunk with the observations added since: too close to the tier budget)
 	}
 	for _, g := range e1BaseGrid(tier) {
 		per := e1Scen{Prop: "C18", Cfg: g.cfg, Alpha: g.alphabet(), Mode: "periodic", Period: 2, Len: 6 * g.cfg.SegCount * 2, Name: g.alpha + "-periodic"}
